@@ -148,7 +148,7 @@ def canon_api(j):
 
 GEN_PROFILES = {
     "default": dict(gen=dict(), opts=[dict()]),
-    "C12": dict(gen=dict(private_rate=0.3), opts=[dict()]),
+    "C12": dict(gen=dict(private_rate=0.3, base_alias=0.7), opts=[dict()]),
     "C14": dict(gen=dict(docs=1.0, doc_types="mixed"),
                 opts=[dict(tsp="CODE", tsw="WARN"), dict(tsp="DOCSTRING", tsw="WARN"), dict(tsp="DOCSTRING", tsw="IGNORE")]),
     "C08": dict(gen=dict(private_rate=0.25, unique_top_names=False, ties=0.5, infer_returns=0.4, doc_types="mixed"), opts=[dict()]),
